@@ -8,10 +8,18 @@ From KV Require Import Gen.Routes.
 Open Scope string_scope.
 Open Scope list_scope.
 
-Inductive rbacspec := RDeny | RAllowNs (n : string) | RAllowAll.
+(* RReadOnly m: a read-only member of namespace m (may get / list / watch there, nothing else) *)
+Inductive rbacspec := RDeny | RAllowNs (n : string) | RAllowAll | RReadOnly (n : string).
+
+Definition read_verb (v : string) : bool := String.eqb v "get" || String.eqb v "list" || String.eqb v "watch".
 
 Definition rbac_of (s : rbacspec) : rbac :=
-  fun _ _ _ n => match s with RDeny => false | RAllowNs m => String.eqb m n | RAllowAll => true end.
+  fun _ v _ n => match s with
+                 | RDeny => false
+                 | RAllowNs m => String.eqb m n
+                 | RAllowAll => true
+                 | RReadOnly m => String.eqb m n && read_verb v
+                 end.
 
 Record case := Case {
   c_route : string;
